@@ -160,7 +160,7 @@ def check_output_gates(rep, repo):
               construct='NOTSOLVED constant')
     it = Interp(repo)
     try:
-        effs, _ = it.run(f, {}, selfterm=lp.MODEL)
+        effs, _ = it.run(f, {p_: S(p_) for p_ in f.params[1:]}, selfterm=lp.MODEL)
     except Unknown as u:
         rep.inconclusive(rule, f.where, 'get_results is inside the interpreted fragment', got=str(u))
         return
